@@ -1173,6 +1173,10 @@ def case_term(case, obs):
     if "not_driven" in obs:
         return None
     if case["kind"] == "with":
+        if case.get("fault") and any(o["op"] in ("close", "fetch_active") for o in case["ops"][:case["k"]]):
+            # not expressible: the driver's injected error hits the exit's final save only, the model's close_fault is a constant
+            # of the run and would fail the earlier closes too (the generator no longer produces this combination)
+            return None
         n = len(case["ops"])
         ops, sites, log = [], [], []
         block_err = "None"
